@@ -5,8 +5,10 @@
 (* A request is a PROGRAM: a sequence of n positions, each a statement or   *)
 (* a COMMIT of a writing SQL transaction.  `commits` lists the positions    *)
 (* that are commits (one for a single operation or an atomic bulk, one per  *)
-(* element for a sequential bulk, none for a dry run).  The shape (n,       *)
-(* commits) of every program of the write catalogue is MEASURED on a clean  *)
+(* element for a sequential bulk, none for a dry run) and `writes` how many *)
+(* logged writes each of them makes durable (1, or the number of elements   *)
+(* of an atomic bulk).  The shape (n, commits, writes) of every program of  *)
+(* the write catalogue is MEASURED on a clean                                *)
 (* run of the real code (vh-api faults -measure) and substituted for the    *)
 (* constant Programs by checks/api_common.py, so TLC enumerates exactly the *)
 (* fault positions the implementation has.                                  *)
@@ -27,7 +29,8 @@
 (***************************************************************************)
 EXTENDS Integers, Sequences, FiniteSets, TLC, Json
 
-CONSTANTS Programs,    \* sequence of [n |-> Nat, commits |-> strictly increasing sequence over 1..n]
+CONSTANTS Programs,    \* sequence of [n |-> Nat, commits |-> strictly increasing sequence over 1..n,
+                       \*              writes |-> sequence of the same length: writes made durable by each commit]
           ErrKinds,    \* set of strings: SQLSTATEs and "cancel"
           Retryable,   \* subset of ErrKinds that the write path retries
           Emit         \* BOOLEAN: print the cases
@@ -37,11 +40,12 @@ VARIABLES p,          \* index of the program under test
           status,     \* "running" | "done" | "failed"
           durable,    \* number of committed transactions of this request (abstract durable state)
           pending,    \* the open transaction holds uncommitted effects
+          owed,       \* writes made durable so far (each is owed exactly one event)
           published,  \* listener calls
           fault,      \* [at, kind]: the injected fault (at = 0: none)
           retried
 
-vars == <<p, pc, status, durable, pending, published, fault, retried>>
+vars == <<p, pc, status, durable, pending, owed, published, fault, retried>>
 
 Range(s) == {s[i] : i \in DOMAIN s}
 Prog == Programs[p]
@@ -51,52 +55,53 @@ NoFault == [at |-> 0, kind |-> "none"]
 
 Init ==
   /\ p \in DOMAIN Programs
-  /\ pc = 0 /\ status = "running" /\ durable = 0 /\ pending = FALSE /\ published = 0
+  /\ pc = 0 /\ status = "running" /\ durable = 0 /\ pending = FALSE /\ owed = 0 /\ published = 0
   /\ fault = NoFault /\ retried = FALSE
 
 \* a statement inside (or outside) a transaction: nothing becomes durable
 Stmt ==
   /\ status = "running" /\ pc < Prog.n /\ (pc + 1) \notin Range(Prog.commits)
   /\ pc' = pc + 1 /\ pending' = TRUE
-  /\ UNCHANGED <<p, status, durable, published, fault, retried>>
+  /\ UNCHANGED <<p, status, durable, owed, published, fault, retried>>
 
 \* the commit step: the only step that changes the durable state
 Commit ==
   /\ status = "running" /\ pc < Prog.n /\ (pc + 1) \in Range(Prog.commits)
   /\ pc' = pc + 1 /\ durable' = durable + 1 /\ pending' = FALSE
+  /\ owed' = owed + Prog.writes[durable + 1]
   /\ UNCHANGED <<p, status, published, fault, retried>>
 
 \* the listener is called for a write that is durable and not announced yet
 Publish ==
-  /\ published < durable
+  /\ published < owed
   /\ published' = published + 1
-  /\ UNCHANGED <<p, pc, status, durable, pending, fault, retried>>
+  /\ UNCHANGED <<p, pc, status, durable, pending, owed, fault, retried>>
 
 Finish ==
-  /\ status = "running" /\ pc = Prog.n /\ published = durable
+  /\ status = "running" /\ pc = Prog.n /\ published = owed
   /\ status' = "done" /\ pending' = FALSE   \* a dry run ends by rolling back
-  /\ UNCHANGED <<p, pc, durable, published, fault, retried>>
+  /\ UNCHANGED <<p, pc, durable, owed, published, fault, retried>>
 
 \* position pc+1 fails with `kind`: the open transaction is rolled back, the request ends with an error
 Fault(kind) ==
   /\ status = "running" /\ pc < Prog.n /\ fault.at = 0
   /\ fault' = [at |-> pc + 1, kind |-> kind]
   /\ status' = "failed" /\ pending' = FALSE
-  /\ UNCHANGED <<p, pc, durable, published, retried>>
+  /\ UNCHANGED <<p, pc, durable, owed, published, retried>>
 
 \* transparent retry of the failed transaction (at most once here): it restarts after the last commit
 Retry ==
   /\ status = "failed" /\ fault.kind \in Retryable /\ ~retried
   /\ status' = "running" /\ retried' = TRUE
   /\ pc' = IF durable = 0 THEN 0 ELSE Prog.commits[durable]
-  /\ UNCHANGED <<p, durable, pending, published, fault>>
+  /\ UNCHANGED <<p, durable, pending, owed, published, fault>>
 
 Next == Stmt \/ Commit \/ Publish \/ Finish \/ Retry \/ \E k \in ErrKinds : Fault(k)
 
 Spec == Init /\ [][Next]_vars
 
 \* a failed request is terminal whether or not a retry is possible: retrying is allowed, not required
-Terminal == status \in {"done", "failed"} /\ published = durable
+Terminal == status \in {"done", "failed"} /\ published = owed
 
 (***************************************************************************)
 (* Invariants                                                               *)
@@ -105,14 +110,14 @@ Terminal == status \in {"done", "failed"} /\ published = durable
 Inv_NoTraceUnlessCommit == durable = CommitsUpTo(pc)
 
 \* C31: events only after (and only for) commits
-Inv_EventsOnlyAfterCommit == published <= durable
+Inv_EventsOnlyAfterCommit == published <= owed /\ (durable = 0 => owed = 0)
 
 \* C07: a failed request leaves nothing pending and exactly the effects of the commits before the fault
 Inv_FailedIsClean == status = "failed" => /\ ~pending
                                           /\ durable = CommitsUpTo(fault.at - 1)
 
 \* a request that ends normally made every one of its transactions durable and announced each once
-Inv_DoneIsComplete == status = "done" => durable = Len(Prog.commits) /\ published = durable /\ ~pending
+Inv_DoneIsComplete == status = "done" => durable = Len(Prog.commits) /\ published = owed /\ ~pending
 
 \* single-transaction programs (single operation, atomic bulk, dry run): all or nothing
 Inv_AllOrNothing == Len(Prog.commits) <= 1 /\ status = "failed" => durable = 0 /\ published = 0
